@@ -12,7 +12,7 @@ theorem step2_perm : ∀ (ps : List PTree) (n : Nat),
   | cons p rest ih =>
     intro n
     cases p with
-    | hlink =>
+    | hlink k =>
       obtain ⟨h1, h2⟩ := ih n
       simp only [step2, numsL, numsT, pnumsL, pnumsT, List.nil_append]
       exact ⟨h1, h2⟩
@@ -50,7 +50,7 @@ theorem alloc_spec : (∀ t, SpecT t) ∧ (∀ l, SpecL l) := by
     intro t
     refine Tree.rec (motive_1 := SpecT) (motive_2 := SpecL) ?_ ?_ ?_ ?_ ?_ t
     · intro n; simp [allocT, pnumsT]
-    · intro n; simp [allocT, pnumsT]
+    · intro k n; simp [allocT, pnumsT]
     · intro cs ih n
       obtain ⟨a1, a2⟩ := ih n
       obtain ⟨b1, b2⟩ := step2_perm (allocL cs n).1 (allocL cs n).2
@@ -98,7 +98,7 @@ theorem numberRoot_perm (cs : List Tree) :
 mutual
 def OrdT : NTree → Prop
   | .file _ => True
-  | .hlink => True
+  | .hlink _ => True
   | .dir n cs => (∀ k ∈ numsL cs, k < n) ∧ OrdL cs
 def OrdL : List NTree → Prop
   | [] => True
@@ -122,7 +122,7 @@ theorem step2_ord : ∀ (ps : List PTree) (n : Nat), POrdL ps → (∀ k ∈ pnu
     simp only [POrdL] at ho
     simp only [pnumsL, List.mem_append] at hb
     cases p with
-    | hlink =>
+    | hlink k =>
       simp only [step2, OrdL, OrdT, true_and]
       exact ih n ho.2 (fun k hk => hb k (Or.inr hk))
     | file =>
@@ -147,7 +147,7 @@ theorem alloc_ord : (∀ t n, POrdT (allocT t n).1) ∧ (∀ l n, POrdL (allocL 
     refine Tree.rec (motive_1 := fun t => ∀ n, POrdT (allocT t n).1) (motive_2 := fun l => ∀ n, POrdL (allocL l n).1)
       ?_ ?_ ?_ ?_ ?_ t
     · intro n; simp [allocT, POrdT]
-    · intro n; simp [allocT, POrdT]
+    · intro k n; simp [allocT, POrdT]
     · intro cs ih n
       simp only [allocT, POrdT]
       exact step2_ord _ _ (ih n) (pnums_le cs n)
@@ -180,7 +180,7 @@ theorem numberRoot_ordered (cs : List Tree) : OrdT (numberRoot cs).1 := by
 mutual
 def eraseT : NTree → Tree
   | .file _ => .file
-  | .hlink => .hlink
+  | .hlink k => .hlink k
   | .dir _ cs => .dir (eraseL cs)
 def eraseL : List NTree → List Tree
   | [] => []
@@ -189,7 +189,7 @@ end
 
 def peraseT : PTree → Tree
   | .file => .file
-  | .hlink => .hlink
+  | .hlink k => .hlink k
   | .dir cs => .dir (eraseL cs)
 
 def peraseL : List PTree → List Tree
@@ -210,7 +210,7 @@ theorem alloc_erase : (∀ t n, peraseT (allocT t n).1 = t) ∧ (∀ l n, perase
     refine Tree.rec (motive_1 := fun t => ∀ n, peraseT (allocT t n).1 = t) (motive_2 := fun l => ∀ n, peraseL (allocL l n).1 = l)
       ?_ ?_ ?_ ?_ ?_ t
     · intro n; simp [allocT, peraseT]
-    · intro n; simp [allocT, peraseT]
+    · intro k n; simp [allocT, peraseT]
     · intro cs ih n
       simp only [allocT, peraseT, step2_erase, ih]
     · intro n; simp [allocL, peraseL]
@@ -225,5 +225,732 @@ theorem alloc_erase : (∀ t n, peraseT (allocT t n).1 = t) ∧ (∀ l n, perase
 /-- numbering changes nothing but the numbers: forgetting them gives back the input tree -/
 theorem numberRoot_shape (cs : List Tree) : eraseT (numberRoot cs).1 = .dir cs := by
   simp only [numberRoot, eraseT, step2_erase, alloc_erase.2]
+
+/-! ### `reorder_hard_links` keeps the numbering dense -/
+
+/-- `inodes[k]->inode_num == k + 1` -/
+def Dense (arr : List Slot) : Prop := ∀ k s, arr[k]? = some s → s.num = k + 1
+
+theorem rotate_ids (arr : List Slot) (i t : Nat) (hi : i ≤ t) :
+    ((rotate arr i t).map (·.id)).Perm (arr.map (·.id)) := by
+  unfold rotate
+  cases h : arr[t]? with
+  | none => exact List.Perm.refl _
+  | some tgt =>
+    simp only
+    have hlt : t < arr.length := by
+      rcases Nat.lt_or_ge t arr.length with h' | h'
+      · exact h'
+      · rw [List.getElem?_eq_none h'] at h; cases h
+    -- arr = take i ++ (drop i).take (t - i) ++ [tgt] ++ drop (t+1)
+    have hsplit : arr = arr.take i ++ ((arr.drop i).take (t - i) ++ tgt :: arr.drop (t + 1)) := by
+      have h1 : arr.drop i = (arr.drop i).take (t - i) ++ (arr.drop i).drop (t - i) := (List.take_append_drop _ _).symm
+      have h2 : (arr.drop i).drop (t - i) = arr.drop t := by rw [List.drop_drop]; congr 1; omega
+      have h3 : arr.drop t = tgt :: arr.drop (t + 1) := by
+        rw [List.drop_eq_getElem_cons hlt]
+        have : arr[t] = tgt := by
+          have := List.getElem?_eq_getElem hlt
+          rw [this] at h; exact Option.some.inj h
+        rw [this]
+      have h0 : arr = arr.take i ++ arr.drop i := (List.take_append_drop i arr).symm
+      rw [h1, h2, h3] at h0
+      exact h0
+    conv => rhs; rw [hsplit]
+    simp only [List.map_append, List.map_cons, List.map_map]
+    have hid : (List.map ((fun x => x.id) ∘ fun s => ({ id := s.id, num := s.num + 1 } : Slot)) (List.take (t - i) (List.drop i arr)))
+        = List.map (fun x => x.id) (List.take (t - i) (List.drop i arr)) := by
+      apply List.map_congr_left; intro a _; rfl
+    rw [hid]
+    apply List.Perm.append_left
+    exact (List.perm_middle).symm
+
+theorem rotate_dense (arr : List Slot) (i t : Nat) (hi : i ≤ t) (hd : Dense arr) : Dense (rotate arr i t) := by
+  unfold rotate
+  cases h : arr[t]? with
+  | none => exact hd
+  | some tgt =>
+    simp only
+    have hlt : t < arr.length := by
+      rcases Nat.lt_or_ge t arr.length with h' | h'
+      · exact h'
+      · rw [List.getElem?_eq_none h'] at h; cases h
+    intro k s hk
+    have hli : (arr.take i).length = i := by rw [List.length_take]; omega
+    by_cases h1 : k < i
+    · rw [List.getElem?_append_left (by omega)] at hk
+      rw [List.getElem?_take_of_lt h1] at hk
+      exact hd k s hk
+    · rw [List.getElem?_append_right (by omega), hli] at hk
+      by_cases h2 : k = i
+      · subst h2
+        simp only [Nat.sub_self, List.getElem?_cons_zero, Option.some.injEq] at hk
+        rw [← hk]
+      · obtain ⟨m, hm⟩ : ∃ m, k - i = m + 1 := ⟨k - i - 1, by omega⟩
+        rw [hm] at hk
+        simp only [List.getElem?_cons_succ] at hk
+        have hlm : (((arr.drop i).take (t - i)).map (fun s => ({ id := s.id, num := s.num + 1 } : Slot))).length = t - i := by
+          rw [List.length_map, List.length_take, List.length_drop]; omega
+        by_cases h3 : m < t - i
+        · rw [List.getElem?_append_left (by omega), List.getElem?_map, List.getElem?_take_of_lt h3, List.getElem?_drop] at hk
+          cases hx : arr[i + m]? with
+          | none => rw [hx] at hk; simp at hk
+          | some x =>
+            rw [hx] at hk
+            simp only [Option.map_some, Option.some.injEq] at hk
+            have := hd (i + m) x hx
+            rw [← hk]; simp only; omega
+        · rw [List.getElem?_append_right (by omega), hlm, List.getElem?_drop] at hk
+          have := hd _ s hk
+          omega
+
+theorem reorderDir_spec : ∀ (links : List Nat) (arr : List Slot) (i : Nat), Dense arr →
+    Dense (reorderDir links arr i).1 ∧ ((reorderDir links arr i).1.map (·.id)).Perm (arr.map (·.id)) ∧ i ≤ (reorderDir links arr i).2 := by
+  intro links
+  induction links with
+  | nil => intro arr i hd; exact ⟨hd, List.Perm.refl _, Nat.le_refl _⟩
+  | cons t rest ih =>
+    intro arr i hd
+    unfold reorderDir
+    cases hf : arr.find? (·.id == t) with
+    | none => exact ih arr i hd
+    | some s =>
+      simp only
+      by_cases hle : s.num - 1 ≤ i
+      · rw [if_pos hle]; exact ih arr i hd
+      · rw [if_neg hle]
+        obtain ⟨a, b, c⟩ := ih (rotate arr i (s.num - 1)) (i + 1) (rotate_dense arr i _ (by omega) hd)
+        exact ⟨a, b.trans (rotate_ids arr i _ (by omega)), by omega⟩
+
+theorem reorderGo_spec (linksOf : Nat → Option (List Nat)) : ∀ (f : Nat) (arr : List Slot) (i : Nat), Dense arr →
+    Dense (reorderGo linksOf f arr i) ∧ ((reorderGo linksOf f arr i).map (·.id)).Perm (arr.map (·.id)) := by
+  intro f
+  induction f with
+  | zero => intro arr i hd; exact ⟨hd, List.Perm.refl _⟩
+  | succ f ih =>
+    intro arr i hd
+    unfold reorderGo
+    cases h : arr[i]? with
+    | none => exact ⟨hd, List.Perm.refl _⟩
+    | some s =>
+      simp only
+      cases hl : linksOf s.id with
+      | none => exact ih arr (i + 1) hd
+      | some links =>
+        simp only
+        obtain ⟨a, b, _⟩ := reorderDir_spec links arr i hd
+        obtain ⟨c, d⟩ := ih (reorderDir links arr i).1 ((reorderDir links arr i).2 + 1) a
+        exact ⟨c, d.trans b⟩
+
+theorem initialSlots_dense (n : Nat) : Dense (initialSlots n) := by
+  intro k s hk
+  unfold initialSlots at hk
+  rw [List.getElem?_map] at hk
+  cases h : (List.range' 1 n)[k]? with
+  | none => rw [h] at hk; simp at hk
+  | some v =>
+    rw [h] at hk
+    simp only [Option.map_some, Option.some.injEq] at hk
+    have hv : v = 1 + k := by
+      have hlt : k < (List.range' 1 n).length := by
+        rcases Nat.lt_or_ge k (List.range' 1 n).length with h' | h'
+        · exact h'
+        · rw [List.getElem?_eq_none h'] at h; cases h
+      rw [List.getElem?_eq_getElem hlt, List.getElem_range'] at h
+      simp only [Option.some.injEq] at h; omega
+    rw [← hk]; simp only; omega
+
+theorem dense_nums : ∀ (arr : List Slot) (a : Nat), (∀ k s, arr[k]? = some s → s.num = a + k) →
+    arr.map (·.num) = List.range' a arr.length := by
+  intro arr
+  induction arr with
+  | nil => intro a _; rfl
+  | cons x xs ih =>
+    intro a h
+    simp only [List.map_cons, List.length_cons, List.range'_succ]
+    have h0 := h 0 x (by simp)
+    rw [ih (a + 1) (fun k s hk => by have := h (k + 1) s (by simpa using hk); omega)]
+    simp only [Nat.add_zero] at h0
+    rw [h0]
+
+/-- after `reorder_hard_links`: slot `k` carries inode number `k + 1`, and the slots hold exactly the nodes the DFS
+numbered (each once) -/
+theorem postProcess_spec (cs : List Tree) :
+    (postProcess cs).map (·.num) = List.range' 1 (numberRoot cs).2 ∧
+    ((postProcess cs).map (·.id)).Perm (numsT (numberRoot cs).1) := by
+  unfold postProcess
+  simp only
+  obtain ⟨hd, hp⟩ := reorderGo_spec
+    (fun id => ((dirsT (filesT (numberRoot cs).1) (numberRoot cs).1).find? (·.1 == id)).map (·.2))
+    ((numberRoot cs).2 + 1) (initialSlots (numberRoot cs).2) 0 (initialSlots_dense _)
+  have hids : (initialSlots (numberRoot cs).2).map (·.id) = List.range' 1 (numberRoot cs).2 := by
+    unfold initialSlots
+    rw [List.map_map]
+    have : ((fun (x : Slot) => x.id) ∘ fun n => ({ id := n, num := n } : Slot)) = id := rfl
+    rw [this, List.map_id]
+  have hlen := hp.length_eq
+  rw [hids] at hp
+  simp only [List.length_map, hids, List.length_range'] at hlen
+  refine ⟨?_, hp.trans (numberRoot_perm cs).symm⟩
+  have := dense_nums _ 1 (fun k s hk => by have := hd k s hk; omega)
+  rw [this, hlen]
+
+/-! ### `reorder_hard_links` keeps children and link targets in front of the directories that name them -/
+
+/-- node `a` sits in an earlier slot than node `b` -/
+def Before (arr : List Slot) (a b : Nat) : Prop :=
+  ∃ (i j : Nat) (sa sb : Slot), i < j ∧ arr[i]? = some sa ∧ arr[j]? = some sb ∧ sa.id = a ∧ sb.id = b
+
+/-- where the slot at `p` ends up when the slot at `t` is rotated to `i` -/
+def newPos (i t p : Nat) : Nat := if p < i then p else if p < t then p + 1 else if p = t then i else p
+
+theorem rotate_get (arr : List Slot) (i t : Nat) (hi : i ≤ t) (ht : t < arr.length) (p : Nat) (s : Slot)
+    (hp : arr[p]? = some s) : ∃ s', (rotate arr i t)[newPos i t p]? = some s' ∧ s'.id = s.id := by
+  have hpl : p < arr.length := by
+    rcases Nat.lt_or_ge p arr.length with h | h
+    · exact h
+    · rw [List.getElem?_eq_none h] at hp; cases hp
+  unfold rotate
+  have htg : arr[t]? = some arr[t] := List.getElem?_eq_getElem ht
+  rw [htg]
+  simp only
+  have hli : (arr.take i).length = i := by rw [List.length_take]; omega
+  have hlm : (((arr.drop i).take (t - i)).map (fun s => ({ id := s.id, num := s.num + 1 } : Slot))).length = t - i := by
+    rw [List.length_map, List.length_take, List.length_drop]; omega
+  unfold newPos
+  by_cases h1 : p < i
+  · rw [if_pos h1, List.getElem?_append_left (by omega), List.getElem?_take_of_lt h1]
+    exact ⟨s, hp, rfl⟩
+  · rw [if_neg h1]
+    by_cases h2 : p < t
+    · rw [if_pos h2, List.getElem?_append_right (by omega), hli]
+      obtain ⟨m, hm⟩ : ∃ m, p + 1 - i = m + 1 := ⟨p - i, by omega⟩
+      rw [hm, List.getElem?_cons_succ, List.getElem?_append_left (by omega), List.getElem?_map,
+        List.getElem?_take_of_lt (by omega), List.getElem?_drop]
+      have : i + m = p := by omega
+      rw [this, hp]
+      exact ⟨_, rfl, rfl⟩
+    · rw [if_neg h2]
+      by_cases h3 : p = t
+      · rw [if_pos h3, List.getElem?_append_right (by omega), hli, Nat.sub_self, List.getElem?_cons_zero]
+        subst h3
+        rw [htg] at hp
+        exact ⟨_, rfl, by rw [← Option.some.inj hp]⟩
+      · rw [if_neg h3, List.getElem?_append_right (by omega), hli]
+        obtain ⟨m, hm⟩ : ∃ m, p - i = m + 1 := ⟨p - i - 1, by omega⟩
+        rw [hm, List.getElem?_cons_succ, List.getElem?_append_right (by omega), hlm, List.getElem?_drop]
+        have : t + 1 + (m - (t - i)) = p := by omega
+        rw [this]
+        exact ⟨s, hp, rfl⟩
+
+/-- a rotation keeps every "a before b" whose `b` is not the slot that is moved to the front -/
+theorem rotate_before (arr : List Slot) (i t : Nat) (hi : i ≤ t) (ht : t < arr.length) (a b : Nat)
+    (hb : ∀ s, arr[t]? = some s → s.id ≠ b) (h : Before arr a b) : Before (rotate arr i t) a b := by
+  obtain ⟨p, q, sa, sb, hpq, hpa, hqb, ha, hbb⟩ := h
+  have hqt : q ≠ t := by
+    intro he; subst he; exact hb sb hqb hbb
+  obtain ⟨sa', h1, h1'⟩ := rotate_get arr i t hi ht p sa hpa
+  obtain ⟨sb', h2, h2'⟩ := rotate_get arr i t hi ht q sb hqb
+  refine ⟨newPos i t p, newPos i t q, sa', sb', ?_, h1, h2, by rw [h1', ha], by rw [h2', hbb]⟩
+  unfold newPos
+  repeat' split
+  all_goals omega
+
+theorem newPos_self (i t : Nat) (h : i ≤ t) : newPos i t t = i := by
+  unfold newPos
+  rw [if_neg (by omega), if_neg (by omega), if_pos rfl]
+
+theorem newPos_front (i t : Nat) (h : i < t) : newPos i t i = i + 1 := by
+  unfold newPos
+  rw [if_neg (Nat.lt_irrefl i), if_pos h]
+
+theorem rotate_prefix (arr : List Slot) (i t p : Nat) (hi : i ≤ t) (hp : p < i) : (rotate arr i t)[p]? = arr[p]? := by
+  unfold rotate
+  cases h : arr[t]? with
+  | none => rfl
+  | some tgt =>
+    simp only
+    have hlt : t < arr.length := by
+      rcases Nat.lt_or_ge t arr.length with h' | h'
+      · exact h'
+      · rw [List.getElem?_eq_none h'] at h; cases h
+    rw [List.getElem?_append_left (by rw [List.length_take]; omega), List.getElem?_take_of_lt hp]
+
+theorem find_dense (arr : List Slot) (hd : Dense arr) (t : Nat) (s : Slot) (h : arr.find? (·.id == t) = some s) :
+    arr[s.num - 1]? = some s ∧ s.id = t := by
+  have hm := List.mem_of_find?_eq_some h
+  have hp := List.find?_some h
+  obtain ⟨k, hk⟩ := List.getElem?_of_mem hm
+  have := hd k s hk
+  have hk' : k = s.num - 1 := by omega
+  subst hk'
+  exact ⟨hk, by simpa using hp⟩
+
+theorem find_present (arr : List Slot) (t : Nat) (h : ∃ s ∈ arr, s.id = t) : ∃ s, arr.find? (·.id == t) = some s := by
+  obtain ⟨s, hs, hid⟩ := h
+  cases hf : arr.find? (·.id == t) with
+  | some x => exact ⟨x, rfl⟩
+  | none =>
+    have := List.find?_eq_none.mp hf s hs
+    simp [hid] at this
+
+theorem rotate_present (arr : List Slot) (i k : Nat) (hi : i ≤ k) (t : Nat) (h : ∃ s ∈ arr, s.id = t) :
+    ∃ s ∈ rotate arr i k, s.id = t := by
+  obtain ⟨s, hs, hid⟩ := h
+  have hm : t ∈ arr.map (·.id) := List.mem_map.mpr ⟨s, hs, hid⟩
+  have := (rotate_ids arr i k hi).symm.subset hm
+  obtain ⟨s', hs', hid'⟩ := List.mem_map.mp this
+  exact ⟨s', hs', hid'⟩
+
+/-- `arr'` keeps every "a before b" of `arr` whose `b` is not movable -/
+def Keeps (mov : Nat → Prop) (arr arr' : List Slot) : Prop := ∀ a b, ¬ mov b → Before arr a b → Before arr' a b
+
+theorem Keeps.refl (mov : Nat → Prop) (arr : List Slot) : Keeps mov arr arr := fun _ _ _ h => h
+
+theorem Keeps.trans {mov : Nat → Prop} {a b c : List Slot} (h1 : Keeps mov a b) (h2 : Keeps mov b c) : Keeps mov a c :=
+  fun x y hy h => h2 x y hy (h1 x y hy h)
+
+theorem rotate_keeps (mov : Nat → Prop) (arr : List Slot) (i k : Nat) (s : Slot) (hi : i ≤ k) (hs : arr[k]? = some s)
+    (hm : mov s.id) : Keeps mov arr (rotate arr i k) := by
+  intro a b hb h
+  have hlt : k < arr.length := by
+    rcases Nat.lt_or_ge k arr.length with h' | h'
+    · exact h'
+    · rw [List.getElem?_eq_none h'] at hs; cases hs
+  apply rotate_before arr i k hi hlt a b _ h
+  intro s' hs' he
+  rw [hs] at hs'
+  have : s' = s := (Option.some.inj hs').symm
+  subst this
+  exact hb (he ▸ hm)
+
+theorem reorderDir_links (mov : Nat → Prop) : ∀ (links : List Nat) (arr : List Slot) (i : Nat) (sd : Slot) (done : List Nat),
+    Dense arr → arr[i]? = some sd → ¬ mov sd.id → (∀ t ∈ links, mov t ∧ ∃ s ∈ arr, s.id = t) →
+    (∀ t ∈ done, Before arr t sd.id) →
+    (∃ sd', (reorderDir links arr i).1[(reorderDir links arr i).2]? = some sd' ∧ sd'.id = sd.id) ∧
+    (∀ t ∈ done ++ links, Before (reorderDir links arr i).1 t sd.id) ∧
+    (∀ p, p < i → (reorderDir links arr i).1[p]? = arr[p]?) ∧
+    (∀ p s, i ≤ p → p < (reorderDir links arr i).2 → (reorderDir links arr i).1[p]? = some s → mov s.id) ∧
+    Keeps mov arr (reorderDir links arr i).1 := by
+  intro links
+  induction links with
+  | nil =>
+    intro arr i sd done _ hsd _ _ hdone
+    exact ⟨⟨sd, hsd, rfl⟩, fun x hx => hdone x (by simpa using hx), fun _ _ => rfl,
+      fun p s h1 h2 _ => by have : p < i := h2; omega, Keeps.refl _ _⟩
+  | cons t rest ih =>
+    intro arr i sd done hd hsd hnm hl hdone
+    obtain ⟨hmt, hpt⟩ := hl t List.mem_cons_self
+    obtain ⟨s, hf⟩ := find_present arr t hpt
+    obtain ⟨hsk, hst⟩ := find_dense arr hd t s hf
+    have hrest : ∀ x ∈ rest, mov x ∧ ∃ s ∈ arr, s.id = x := fun x hx => hl x (List.mem_cons_of_mem _ hx)
+    unfold reorderDir
+    rw [hf]
+    simp only
+    by_cases hle : s.num - 1 ≤ i
+    · rw [if_pos hle]
+      have hne : s.num - 1 ≠ i := by
+        intro he
+        rw [he, hsd] at hsk
+        have : sd = s := Option.some.inj hsk
+        rw [this, hst] at hnm
+        exact hnm hmt
+      have hbef : Before arr t sd.id := ⟨s.num - 1, i, s, sd, by omega, hsk, hsd, hst, rfl⟩
+      obtain ⟨a1, a2, a3, a4, a5⟩ := ih arr i sd (done ++ [t]) hd hsd hnm hrest (by
+        intro x hx
+        rcases List.mem_append.mp hx with h | h
+        · exact hdone x h
+        · simp only [List.mem_singleton] at h; subst h; exact hbef)
+      have e : done ++ [t] ++ rest = done ++ t :: rest := by simp
+      rw [e] at a2
+      exact ⟨a1, a2, a3, a4, a5⟩
+    · rw [if_neg hle]
+      have hik : i ≤ s.num - 1 := by omega
+      have hklt : s.num - 1 < arr.length := by
+        rcases Nat.lt_or_ge (s.num - 1) arr.length with h' | h'
+        · exact h'
+        · rw [List.getElem?_eq_none h'] at hsk; cases hsk
+      -- after the rotation: target in slot i, the directory in slot i + 1
+      obtain ⟨st', hst1, hst2⟩ := rotate_get arr i (s.num - 1) hik hklt (s.num - 1) s hsk
+      obtain ⟨sd', hsd1, hsd2⟩ := rotate_get arr i (s.num - 1) hik hklt i sd hsd
+      have np1 : newPos i (s.num - 1) (s.num - 1) = i := newPos_self _ _ hik
+      have np2 : newPos i (s.num - 1) i = i + 1 := newPos_front _ _ (by omega)
+      rw [np1] at hst1
+      rw [np2] at hsd1
+      have hkeep := rotate_keeps mov arr i (s.num - 1) s hik hsk (hst ▸ hmt)
+      have hbef : Before (rotate arr i (s.num - 1)) t sd.id :=
+        ⟨i, i + 1, st', sd', by omega, hst1, hsd1, by rw [hst2, hst], hsd2⟩
+      have hnm' : ¬ mov sd'.id := by rw [hsd2]; exact hnm
+      obtain ⟨a1, a2, a3, a4, a5⟩ := ih (rotate arr i (s.num - 1)) (i + 1) sd' (done ++ [t])
+        (rotate_dense arr i _ hik hd) hsd1 hnm'
+        (fun x hx => ⟨(hrest x hx).1, rotate_present arr i _ hik x (hrest x hx).2⟩) (by
+          intro x hx
+          rw [hsd2]
+          rcases List.mem_append.mp hx with h | h
+          · exact hkeep x sd.id hnm (hdone x h)
+          · simp only [List.mem_singleton] at h; subst h; exact hbef)
+      rw [hsd2] at a1 a2
+      have e : done ++ [t] ++ rest = done ++ t :: rest := by simp
+      rw [e] at a2
+      refine ⟨a1, a2, ?_, ?_, Keeps.trans hkeep a5⟩
+      · intro p hp
+        rw [a3 p (by omega), rotate_prefix arr i _ p hik hp]
+      · intro p x h1 h2 hx
+        by_cases hpi : p = i
+        · subst hpi
+          rw [a3 p (by omega), hst1] at hx
+          rw [← Option.some.inj hx, hst2, hst]; exact hmt
+        · exact a4 p x (by omega) h2 hx
+
+/-- every directory in a slot below `i` comes after the targets of all its hard-link entries -/
+def LinksDone (linksOf : Nat → Option (List Nat)) (arr : List Slot) (i : Nat) : Prop :=
+  ∀ p s, p < i → arr[p]? = some s → ∀ links, linksOf s.id = some links → ∀ t ∈ links, Before arr t s.id
+
+theorem reorderGo_links (linksOf : Nat → Option (List Nat))
+    (htg : ∀ id links, linksOf id = some links → ∀ t ∈ links, linksOf t = none) :
+    ∀ (f : Nat) (arr : List Slot) (i : Nat), Dense arr → arr.length ≤ i + f →
+      (∀ id links, linksOf id = some links → ∀ t ∈ links, ∃ s ∈ arr, s.id = t) →
+      LinksDone linksOf arr i →
+      Keeps (fun id => linksOf id = none) arr (reorderGo linksOf f arr i) ∧
+      LinksDone linksOf (reorderGo linksOf f arr i) (reorderGo linksOf f arr i).length := by
+  intro f
+  induction f with
+  | zero =>
+    intro arr i _ hlen _ hq
+    refine ⟨Keeps.refl _ _, ?_⟩
+    intro p s hp hs
+    have : p < arr.length := hp
+    exact hq p s (by omega) hs
+  | succ f ih =>
+    intro arr i hd hlen hpres hq
+    unfold reorderGo
+    cases hsi : arr[i]? with
+    | none =>
+      simp only
+      refine ⟨Keeps.refl _ _, ?_⟩
+      intro p s hp hs
+      have hge : arr.length ≤ i := by
+        rcases Nat.lt_or_ge i arr.length with h | h
+        · rw [List.getElem?_eq_getElem h] at hsi; cases hsi
+        · exact h
+      exact hq p s (by omega) hs
+    | some s =>
+      simp only
+      cases hl : linksOf s.id with
+      | none =>
+        simp only
+        apply ih arr (i + 1) hd (by omega) hpres
+        intro p s' hp hs' links hl'
+        by_cases hpi : p = i
+        · subst hpi
+          rw [hsi] at hs'
+          rw [← Option.some.inj hs', hl] at hl'
+          cases hl'
+        · exact hq p s' (by omega) hs' links hl'
+      | some links =>
+        simp only
+        have hnm : ¬ (fun id => linksOf id = none) s.id := by simp [hl]
+        obtain ⟨⟨sd', b1, b1'⟩, b2, b3, b4, b5⟩ := reorderDir_links (fun id => linksOf id = none) links arr i s [] hd hsi hnm
+          (fun t ht => ⟨htg s.id links hl t ht, hpres s.id links hl t ht⟩) (by simp)
+        obtain ⟨c1, c2, c3⟩ := reorderDir_spec links arr i hd
+        have hlen' : (reorderDir links arr i).1.length = arr.length := by
+          have := c2.length_eq; simpa using this
+        have hq' : LinksDone linksOf (reorderDir links arr i).1 ((reorderDir links arr i).2 + 1) := by
+          intro p s' hp hs' links' hl' t ht
+          by_cases hp1 : p < i
+          · rw [b3 p hp1] at hs'
+            exact b5 t s'.id (by simp [hl']) (hq p s' hp1 hs' links' hl' t ht)
+          · by_cases hp2 : p < (reorderDir links arr i).2
+            · have hmv : linksOf s'.id = none := b4 p s' (by omega) hp2 hs'
+              rw [hmv] at hl'; cases hl'
+            · have hpe : p = (reorderDir links arr i).2 := by omega
+              subst hpe
+              rw [b1] at hs'
+              have hid : s'.id = s.id := by rw [← Option.some.inj hs']; exact b1'
+              rw [hid] at hl' ⊢
+              rw [hl] at hl'
+              have : links' = links := (Option.some.inj hl').symm
+              subst this
+              exact b2 t (by simpa using ht)
+        have hpres' : ∀ id ls, linksOf id = some ls → ∀ t ∈ ls, ∃ s ∈ (reorderDir links arr i).1, s.id = t := by
+          intro id ls hls t ht
+          obtain ⟨s0, hs0, hid0⟩ := hpres id ls hls t ht
+          have hm : t ∈ arr.map (·.id) := List.mem_map.mpr ⟨s0, hs0, hid0⟩
+          obtain ⟨s1, hs1, hid1⟩ := List.mem_map.mp (c2.symm.subset hm)
+          exact ⟨s1, hs1, hid1⟩
+        obtain ⟨d1, d2⟩ := ih (reorderDir links arr i).1 ((reorderDir links arr i).2 + 1) c1 (by omega) hpres' hq'
+        exact ⟨Keeps.trans b5 d1, d2⟩
+
+/--
+`reorder_hard_links` on a dense `fs->inodes` in which hard links point at non-directories that are in the array:
+whatever came before a directory still comes before it, and afterwards every directory comes after the targets of all
+its hard-link entries.
+-/
+theorem reorder_links_before (linksOf : Nat → Option (List Nat)) (arr : List Slot) (hd : Dense arr)
+    (htg : ∀ id links, linksOf id = some links → ∀ t ∈ links, linksOf t = none)
+    (hpres : ∀ id links, linksOf id = some links → ∀ t ∈ links, ∃ s ∈ arr, s.id = t) :
+    (∀ a b, linksOf b ≠ none → Before arr a b → Before (reorderGo linksOf (arr.length + 1) arr 0) a b) ∧
+    (∀ s ∈ reorderGo linksOf (arr.length + 1) arr 0, ∀ links, linksOf s.id = some links →
+      ∀ t ∈ links, Before (reorderGo linksOf (arr.length + 1) arr 0) t s.id) := by
+  obtain ⟨k, q⟩ := reorderGo_links linksOf htg (arr.length + 1) arr 0 hd (by omega) hpres (by intro p s hp; omega)
+  refine ⟨fun a b hb h => k a b hb h, ?_⟩
+  intro s hs links hl t ht
+  obtain ⟨p, hp⟩ := List.getElem?_of_mem hs
+  have hlt : p < (reorderGo linksOf (arr.length + 1) arr 0).length := by
+    rcases Nat.lt_or_ge p (reorderGo linksOf (arr.length + 1) arr 0).length with h | h
+    · exact h
+    · rw [List.getElem?_eq_none h] at hp; cases hp
+  exact q p s hlt hp links hl t ht
+
+mutual
+/-- every hard link of the tree names an existing file (`k <` number of files) -/
+def ValidT (nf : Nat) : NTree → Prop
+  | .file _ => True
+  | .hlink k => k < nf
+  | .dir _ cs => ValidL nf cs
+def ValidL (nf : Nat) : List NTree → Prop
+  | [] => True
+  | t :: r => ValidT nf t ∧ ValidL nf r
+end
+
+mutual
+def dirNumsT : NTree → List Nat
+  | .file _ => []
+  | .hlink _ => []
+  | .dir n cs => n :: dirNumsL cs
+def dirNumsL : List NTree → List Nat
+  | [] => []
+  | t :: r => dirNumsT t ++ dirNumsL r
+end
+
+theorem dirs_fst (files : List Nat) : (∀ t, (dirsT files t).map (·.1) = dirNumsT t) ∧ (∀ l, (dirsL files l).map (·.1) = dirNumsL l) := by
+  have key : ∀ t, (dirsT files t).map (·.1) = dirNumsT t := by
+    intro t
+    refine NTree.rec (motive_1 := fun t => (dirsT files t).map (·.1) = dirNumsT t)
+      (motive_2 := fun l => (dirsL files l).map (·.1) = dirNumsL l) ?_ ?_ ?_ ?_ ?_ t
+    · intro n; rfl
+    · intro k; rfl
+    · intro n cs ih; simp only [dirsT, dirNumsT, List.map_cons, ih]
+    · rfl
+    · intro t r iht ihr; simp only [dirsL, dirNumsL, List.map_append, iht, ihr]
+  refine ⟨key, ?_⟩
+  intro l
+  induction l with
+  | nil => rfl
+  | cons t r ih => simp only [dirsL, dirNumsL, List.map_append, key, ih]
+
+theorem nums_split : (∀ t, (numsT t).Perm (filesT t ++ dirNumsT t)) ∧ (∀ l, (numsL l).Perm (filesL l ++ dirNumsL l)) := by
+  have key : ∀ t, (numsT t).Perm (filesT t ++ dirNumsT t) := by
+    intro t
+    refine NTree.rec (motive_1 := fun t => (numsT t).Perm (filesT t ++ dirNumsT t))
+      (motive_2 := fun l => (numsL l).Perm (filesL l ++ dirNumsL l)) ?_ ?_ ?_ ?_ ?_ t
+    · intro n; simp [numsT, filesT, dirNumsT]
+    · intro k; simp [numsT, filesT, dirNumsT]
+    · intro n cs ih
+      simp only [numsT, filesT, dirNumsT]
+      exact (List.Perm.append_right [n] ih).trans (by
+        rw [List.append_assoc]
+        exact List.Perm.append_left _ (List.perm_append_comm))
+    · simp [numsL, filesL, dirNumsL]
+    · intro t r iht ihr
+      simp only [numsL, filesL, dirNumsL]
+      have := List.Perm.append iht ihr
+      refine this.trans ?_
+      -- (ft ++ dt) ++ (fr ++ dr) ~ (ft ++ fr) ++ (dt ++ dr)
+      rw [List.append_assoc, List.append_assoc]
+      apply List.Perm.append_left
+      rw [← List.append_assoc, ← List.append_assoc]
+      exact List.Perm.append_right _ List.perm_append_comm
+  refine ⟨key, ?_⟩
+  intro l
+  induction l with
+  | nil => simp [numsL, filesL, dirNumsL]
+  | cons t r ih =>
+    simp only [numsL, filesL, dirNumsL]
+    refine (List.Perm.append (key t) ih).trans ?_
+    rw [List.append_assoc, List.append_assoc]
+    apply List.Perm.append_left
+    rw [← List.append_assoc, ← List.append_assoc]
+    exact List.Perm.append_right _ List.perm_append_comm
+
+theorem linkTargets_mem (files : List Nat) : ∀ (cs : List NTree), ValidL files.length cs → ∀ x ∈ linkTargets files cs, x ∈ files := by
+  intro cs
+  induction cs with
+  | nil => intro _ x hx; simp [linkTargets] at hx
+  | cons c r ih =>
+    intro hv x hx
+    simp only [ValidL] at hv
+    cases c with
+    | file n => exact ih hv.2 x (by simpa [linkTargets] using hx)
+    | dir n cs' => exact ih hv.2 x (by simpa [linkTargets] using hx)
+    | hlink k =>
+      simp only [linkTargets, List.mem_cons] at hx
+      rcases hx with h | h
+      · subst h
+        have hk : k < files.length := hv.1
+        rw [List.getD_eq_getElem?_getD, List.getElem?_eq_getElem hk]
+        exact List.getElem_mem hk
+      · exact ih hv.2 x h
+
+theorem dirs_targets (files : List Nat) :
+    (∀ t, ValidT files.length t → ∀ d ∈ dirsT files t, ∀ x ∈ d.2, x ∈ files) ∧
+    (∀ l, ValidL files.length l → ∀ d ∈ dirsL files l, ∀ x ∈ d.2, x ∈ files) := by
+  have key : ∀ t, ValidT files.length t → ∀ d ∈ dirsT files t, ∀ x ∈ d.2, x ∈ files := by
+    intro t
+    refine NTree.rec (motive_1 := fun t => ValidT files.length t → ∀ d ∈ dirsT files t, ∀ x ∈ d.2, x ∈ files)
+      (motive_2 := fun l => ValidL files.length l → ∀ d ∈ dirsL files l, ∀ x ∈ d.2, x ∈ files) ?_ ?_ ?_ ?_ ?_ t
+    · intro n _ d hd; simp [dirsT] at hd
+    · intro k _ d hd; simp [dirsT] at hd
+    · intro n cs ih hv d hd x hx
+      simp only [dirsT, List.mem_cons] at hd
+      simp only [ValidT] at hv
+      rcases hd with h | h
+      · subst h; exact linkTargets_mem files cs hv x hx
+      · exact ih hv d h x hx
+    · intro _ d hd; simp [dirsL] at hd
+    · intro t r iht ihr hv d hd x hx
+      simp only [dirsL, List.mem_append] at hd
+      simp only [ValidL] at hv
+      rcases hd with h | h
+      · exact iht hv.1 d h x hx
+      · exact ihr hv.2 d h x hx
+  refine ⟨key, ?_⟩
+  intro l
+  induction l with
+  | nil => intro _ d hd; simp [dirsL] at hd
+  | cons t r ih =>
+    intro hv d hd x hx
+    simp only [dirsL, List.mem_append] at hd
+    simp only [ValidL] at hv
+    rcases hd with h | h
+    · exact key t hv.1 d h x hx
+    · exact ih hv.2 d h x hx
+
+theorem eq_of_nodup_map_fst : ∀ (l : List (Nat × List Nat)), (l.map (·.1)).Nodup →
+    ∀ a ∈ l, ∀ b ∈ l, a.1 = b.1 → a = b := by
+  intro l
+  induction l with
+  | nil => intro _ a ha; simp at ha
+  | cons x xs ih =>
+    intro hn a ha b hb hab
+    simp only [List.map_cons, List.nodup_cons] at hn
+    rcases List.mem_cons.mp ha with h1 | h1 <;> rcases List.mem_cons.mp hb with h2 | h2
+    · rw [h1, h2]
+    · exfalso; apply hn.1; rw [← h1, hab]; exact List.mem_map.mpr ⟨b, h2, rfl⟩
+    · exfalso; apply hn.1; rw [← h2, ← hab]; exact List.mem_map.mpr ⟨a, h1, rfl⟩
+    · exact ih hn.2 a h1 b h2 hab
+
+theorem initialSlots_get (n k : Nat) (h : k < n) : (initialSlots n)[k]? = some ⟨k + 1, k + 1⟩ := by
+  unfold initialSlots
+  rw [List.getElem?_map, List.getElem?_eq_getElem (by simpa using h), List.getElem_range']
+  simp only [Option.map_some, Nat.one_mul]
+  congr 1
+  rw [Nat.add_comm]
+
+theorem initialSlots_before (n a b : Nat) (ha : 1 ≤ a) (hab : a < b) (hb : b ≤ n) : Before (initialSlots n) a b :=
+  ⟨a - 1, b - 1, ⟨a, a⟩, ⟨b, b⟩, by omega,
+    by have := initialSlots_get n (a - 1) (by omega); rw [this]; congr <;> omega,
+    by have := initialSlots_get n (b - 1) (by omega); rw [this]; congr <;> omega, rfl, rfl⟩
+
+/--
+`fstree_post_process` for a tree whose hard links all name existing files: in the final order of `fs->inodes`
+(= order of serialisation) whatever the DFS numbered below a directory still comes before that directory, and every
+directory comes after the target of each of its hard-link entries.
+-/
+theorem postProcess_order (cs : List Tree)
+    (hv : ValidT (filesT (numberRoot cs).1).length (numberRoot cs).1) :
+    (∀ a b, 1 ≤ a → a < b → b ∈ dirNumsT (numberRoot cs).1 → Before (postProcess cs) a b) ∧
+    (∀ d ∈ dirsT (filesT (numberRoot cs).1) (numberRoot cs).1, ∀ x ∈ d.2, Before (postProcess cs) x d.1) := by
+  -- notation
+  generalize ht : (numberRoot cs).1 = t at hv ⊢
+  generalize hN : (numberRoot cs).2 = N
+  have hperm : (numsT t).Perm (List.range' 1 N) := by rw [← ht, ← hN]; exact numberRoot_perm cs
+  have hnodup : (filesT t ++ dirNumsT t).Nodup := ((nums_split.1 t).symm.trans hperm).nodup_iff.mpr List.nodup_range'
+  have hrange : ∀ x, x ∈ filesT t ++ dirNumsT t → 1 ≤ x ∧ x ≤ N := by
+    intro x hx
+    have := ((nums_split.1 t).symm.trans hperm).subset hx
+    rw [List.mem_range'_1] at this; omega
+  have hdisj : ∀ x, x ∈ filesT t → x ∉ dirNumsT t := by
+    intro x hf hdn
+    exact (List.nodup_append.mp hnodup).2.2 x hf x hdn rfl
+  let linksOf : Nat → Option (List Nat) := fun id => ((dirsT (filesT t) t).find? (·.1 == id)).map (·.2)
+  have hpp : postProcess cs = reorderGo linksOf ((initialSlots N).length + 1) (initialSlots N) 0 := by
+    unfold postProcess
+    simp only [ht, hN]
+    have : (initialSlots N).length = N := by simp [initialSlots]
+    rw [this]
+  -- facts about linksOf
+  have hsome : ∀ id links, linksOf id = some links → (id, links) ∈ dirsT (filesT t) t := by
+    intro id links h
+    simp only [linksOf] at h
+    cases hf : (dirsT (filesT t) t).find? (·.1 == id) with
+    | none => rw [hf] at h; cases h
+    | some d =>
+      rw [hf] at h
+      simp only [Option.map_some, Option.some.injEq] at h
+      have hm := List.mem_of_find?_eq_some hf
+      have hp := List.find?_some hf
+      have : d.1 = id := by simpa using hp
+      rw [← this, ← h]; exact hm
+  have hnone : ∀ x, x ∉ dirNumsT t → linksOf x = none := by
+    intro x hx
+    simp only [linksOf]
+    cases hf : (dirsT (filesT t) t).find? (·.1 == x) with
+    | none => rfl
+    | some d =>
+      exfalso
+      have hm := List.mem_of_find?_eq_some hf
+      have hp := List.find?_some hf
+      have : d.1 = x := by simpa using hp
+      apply hx
+      rw [← (dirs_fst (filesT t)).1 t, ← this]
+      exact List.mem_map.mpr ⟨d, hm, rfl⟩
+  have hisdir : ∀ b, b ∈ dirNumsT t → linksOf b ≠ none := by
+    intro b hb
+    rw [← (dirs_fst (filesT t)).1 t] at hb
+    obtain ⟨d, hd, hd1⟩ := List.mem_map.mp hb
+    simp only [linksOf]
+    cases hf : (dirsT (filesT t) t).find? (·.1 == b) with
+    | some d' => simp
+    | none =>
+      have := List.find?_eq_none.mp hf d hd
+      simp [hd1] at this
+  have htg : ∀ id links, linksOf id = some links → ∀ x ∈ links, linksOf x = none := by
+    intro id links h x hx
+    exact hnone x (hdisj x ((dirs_targets (filesT t)).1 t hv (id, links) (hsome id links h) x hx))
+  have hpres : ∀ id links, linksOf id = some links → ∀ x ∈ links, ∃ s ∈ initialSlots N, s.id = x := by
+    intro id links h x hx
+    have hxf := (dirs_targets (filesT t)).1 t hv (id, links) (hsome id links h) x hx
+    obtain ⟨h1, h2⟩ := hrange x (List.mem_append_left _ hxf)
+    exact ⟨⟨x, x⟩, List.mem_of_getElem? (by have := initialSlots_get N (x - 1) (by omega); rw [this]; congr <;> omega), rfl⟩
+  obtain ⟨r1, r2⟩ := reorder_links_before linksOf (initialSlots N) (initialSlots_dense N) htg hpres
+  rw [hpp]
+  refine ⟨?_, ?_⟩
+  · intro a b ha hab hb
+    have hbN := (hrange b (List.mem_append_right _ hb)).2
+    exact r1 a b (hisdir b hb) (initialSlots_before N a b ha hab hbN)
+  · intro d hd x hx
+    -- the directory `d.1` is in the final array (ids are a permutation of 1..N)
+    have hb : d.1 ∈ dirNumsT t := by
+      rw [← (dirs_fst (filesT t)).1 t]; exact List.mem_map.mpr ⟨d, hd, rfl⟩
+    obtain ⟨h1, h2⟩ := hrange d.1 (List.mem_append_right _ hb)
+    have hperm2 := (reorderGo_spec linksOf ((initialSlots N).length + 1) (initialSlots N) 0 (initialSlots_dense N)).2
+    have hin : d.1 ∈ (initialSlots N).map (·.id) :=
+      List.mem_map.mpr ⟨⟨d.1, d.1⟩, List.mem_of_getElem? (by have := initialSlots_get N (d.1 - 1) (by omega); rw [this]; congr <;> omega), rfl⟩
+    obtain ⟨s, hs, hsid⟩ := List.mem_map.mp (hperm2.symm.subset hin)
+    -- its links, as `linksOf` sees them: the first entry of `dirs` with this number — which is `d` itself
+    cases hl : linksOf d.1 with
+    | none => exact absurd hl (hisdir d.1 hb)
+    | some links =>
+      have hmem := hsome d.1 links hl
+      -- directory numbers are unique, so (d.1, links) = d
+      have huniq : links = d.2 := by
+        have hnd : (dirNumsT t).Nodup := (List.nodup_append.mp hnodup).2.1
+        rw [← (dirs_fst (filesT t)).1 t] at hnd
+        have := eq_of_nodup_map_fst _ hnd _ hmem _ hd rfl
+        exact congrArg Prod.snd this
+      subst huniq
+      have := r2 s hs d.2 (by rw [hsid]; exact hl) x hx
+      rw [hsid] at this
+      exact this
 
 end Sqfs.Numbering
